@@ -468,10 +468,15 @@ def _motions(d):
 
     if d == 2:
         return [(mt.Rotation.init_from_2d_ccw_angle(math.atan2(4, 3), degrees=False), 1.0),
-                (mt.Translation([2.5, -1.0]), 1.0), (mt.UniformScale(2.0, 2), 2.0), (mt.UniformScale(0.5, 2), 0.5)]
+                (mt.Translation([2.5, -1.0]), 1.0), (mt.UniformScale(2.0, 2), 2.0), (mt.UniformScale(0.5, 2), 0.5),
+                # far from the origin, very small, very large: "all rigid motions and uniform scales" (relative comparison)
+                (mt.Rotation.init_from_2d_ccw_angle(0.7, degrees=False).compose_before(mt.Translation([1.0e6 + 0.3, -2.0e6 + 0.7])), 1.0),
+                (mt.UniformScale(1.0e-5, 2), 1.0e-5), (mt.UniformScale(1.0e4, 2), 1.0e4)]
     return [(mt.Rotation.init_from_3d_ccw_angle_around_x(math.atan2(4, 3), degrees=False), 1.0),
             (mt.Rotation.init_from_3d_ccw_angle_around_z(math.atan2(-5, 12), degrees=False), 1.0),
-            (mt.Translation([2.5, -1.0, 4.0]), 1.0), (mt.UniformScale(3.0, 3), 3.0)]
+            (mt.Translation([2.5, -1.0, 4.0]), 1.0), (mt.UniformScale(3.0, 3), 3.0),
+            (mt.Rotation.init_from_3d_ccw_angle_around_y(0.7, degrees=False).compose_before(mt.Translation([1.0e6 + 0.3, -2.0e6 + 0.7, 3.0e6 + 0.1])), 1.0),
+            (mt.UniformScale(1.0e-5, 3), 1.0e-5), (mt.UniformScale(1.0e4, 3), 1.0e4)]
 
 
 def _warm(mesh):
@@ -535,16 +540,21 @@ def check_geom(o):
     # invariances under rigid motion / uniform scaling, evaluated in the real code
     for t, sc in _motions(d):
         m2 = t.apply(mesh)
-        if not L.close(m2.tri_areas(), areas * sc * sc, 1e-9):
+        big = abs(t.h_matrix[:d, d]).max() > 1e3
+        rel = lambda a, b: np.allclose(a, b, rtol=1e-6 if big else 1e-9, atol=1e-9 * min(1.0, sc * sc))
+        if not rel(m2.tri_areas(), areas * sc * sc):
             bad.append(("areas do not scale by s^2 / are not invariant under rigid motion", {"transform": type(t).__name__}, None))
-        if not L.close(np.sort(m2.edge_lengths()), np.sort(el) * sc, 1e-9):
+        if not rel(np.sort(m2.edge_lengths()), np.sort(el) * sc):
             bad.append(("edge lengths do not scale by s / are not invariant under rigid motion", {"transform": type(t).__name__}, None))
         if d == 3:
             lin = t.h_matrix[:3, :3] / sc
-            if not L.close(m2.tri_normals(), mesh.tri_normals() @ lin.T, 1e-9):
+            if not np.allclose(m2.tri_normals(), mesh.tri_normals() @ lin.T, atol=1e-6 if big else 1e-9):
                 bad.append(("triangle normals do not follow the rotation", {"transform": type(t).__name__}, None))
             if not L.close(np.linalg.norm(m2.tri_normals(), axis=1), np.ones(len(N)), 1e-12):
-                bad.append(("triangle normals are not unit vectors", {}, None))
+                bad.append(("triangle normals are not unit vectors", {"transform": type(t).__name__, "scale": sc}, None))
+            vn2 = m2.vertex_normals()[np.unique(m2.trilist)]
+            if not L.close(np.linalg.norm(vn2, axis=1), np.ones(len(vn2)), 1e-9):
+                bad.append(("vertex normals are not unit vectors", {"transform": type(t).__name__, "scale": sc}, None))
     return bad
 
 
